@@ -110,7 +110,25 @@ func Load(dir string, tests bool, goarch string, overlay map[string][]byte) (*Pr
 		}
 	}
 	for callee, cs := range sites {
-		if len(cs) != 1 || callee.Parent() != nil || callee.Object() == nil || callee.Object().Exported() {
+		if len(cs) != 1 {
+			continue
+		}
+		if callee.Parent() != nil {
+			// a function literal: unique only if the literal is used nowhere but in this call
+			mc, ok := cs[0].Common().Value.(*ssa.MakeClosure)
+			if !ok || mc.Referrers() == nil {
+				continue
+			}
+			n := 0
+			for _, r := range *mc.Referrers() {
+				if _, dbg := r.(*ssa.DebugRef); !dbg {
+					n++
+				}
+			}
+			if n != 1 {
+				continue
+			}
+		} else if callee.Object() == nil || callee.Object().Exported() {
 			continue
 		}
 		args := cs[0].Common().Args
